@@ -51,23 +51,48 @@ func fnBetween(args []object.Object) object.Object {
 	max := args[2]
 
 	// val < min?
-	lower := fnMin([]object.Object{val, min})
-	if lower == val {
-
-		if val.Inspect() != min.Inspect() {
-			return &object.Boolean{Value: false}
-		}
+	if lessNumber(val, min) {
+		return &object.Boolean{Value: false}
 	}
 
 	// val > max
-	upper := fnMax([]object.Object{val, max})
-	if upper == val {
-		if val.Inspect() != max.Inspect() {
-			return &object.Boolean{Value: false}
-		}
+	if lessNumber(max, val) {
+		return &object.Boolean{Value: false}
 	}
 
 	return &object.Boolean{Value: true}
+}
+
+// lessNumber reports whether the number a is smaller than the number b.
+//
+// Numbers must be compared by their value: their printed forms order
+// differently, "10" sorts before "9".
+func lessNumber(a object.Object, b object.Object) bool {
+
+	// two integers are compared exactly
+	ai, aok := a.(*object.Integer)
+	bi, bok := b.(*object.Integer)
+	if aok && bok {
+		return ai.Value < bi.Value
+	}
+
+	return numberValue(a) < numberValue(b)
+}
+
+// isNumber reports whether the given object is an integer or a float.
+func isNumber(obj object.Object) bool {
+	return obj.Type() == object.INTEGER || obj.Type() == object.FLOAT
+}
+
+// numberValue returns the value of an integer or float object.
+func numberValue(obj object.Object) float64 {
+	switch v := obj.(type) {
+	case *object.Integer:
+		return float64(v.Value)
+	case *object.Float:
+		return v.Value
+	}
+	return 0
 }
 
 // fnFloat is the implementation of the `float` function.
@@ -301,6 +326,14 @@ func fnMax(args []object.Object) object.Object {
 		return &object.Null{}
 	}
 
+	// Numbers are compared by their value.
+	if isNumber(args[0]) && isNumber(args[1]) {
+		if lessNumber(args[0], args[1]) {
+			return args[1]
+		}
+		return args[0]
+	}
+
 	// Create an array.  Yeah.
 	elements := make([]object.Object, 2)
 	elements[0] = args[0]
@@ -325,6 +358,14 @@ func fnMin(args []object.Object) object.Object {
 		return &object.Null{}
 	}
 
+	// Numbers are compared by their value.
+	if isNumber(args[0]) && isNumber(args[1]) {
+		if lessNumber(args[1], args[0]) {
+			return args[1]
+		}
+		return args[0]
+	}
+
 	// Create an array.  Yeah.
 	elements := make([]object.Object, 2)
 	elements[0] = args[0]
@@ -336,7 +377,7 @@ func fnMin(args []object.Object) object.Object {
 	// sort it
 	out := fnSort([]object.Object{arr})
 
-	// max
+	// min
 	return (out.(*object.Array).Elements[0])
 
 }
